@@ -175,6 +175,37 @@ impl<'w> FnTr<'w> {
             }
             Expr::Try(_) => Err(self.err(e, "`?` is only supported as the outermost operator of a `let` initialiser")),
             Expr::Closure(_) => Err(self.err(e, "closure outside a supported combinator")),
+            // `format!("{}{}..", a, b, ..)`: only `{}` placeholders and literal text, string arguments: concatenation
+            Expr::Macro(m) if m.mac.path.is_ident("format") => {
+                use syn::punctuated::Punctuated;
+                let args = m.mac.parse_body_with(Punctuated::<Expr, syn::Token![,]>::parse_terminated).map_err(|_| self.err(e, "cannot parse the arguments of `format!`"))?;
+                let args: Vec<&Expr> = args.iter().collect();
+                let tpl = match args.first().map(|a| strip(a)) { Some(Expr::Lit(syn::ExprLit { lit: Lit::Str(s), .. })) => s.value(), _ => return Err(self.err(e, "`format!` without a literal template")) };
+                let mut parts: Vec<Ex> = vec![];
+                let mut lit = String::new();
+                let mut k = 1;
+                let cs: Vec<char> = tpl.chars().collect();
+                let mut i = 0;
+                let flush = |lit: &mut String, parts: &mut Vec<Ex>| { if !lit.is_empty() { let t: Vec<String> = lit.chars().map(|c| format!("(Char.ofNat {})", c as u32)).collect(); parts.push(Ex::atom(format!("[{}]", t.join(", ")), RTy::Str)); lit.clear(); } };
+                while i < cs.len() {
+                    if cs[i] == '{' && i + 1 < cs.len() && cs[i + 1] == '}' {
+                        flush(&mut lit, &mut parts);
+                        if k >= args.len() { return Err(self.err(e, "`format!`: more placeholders than arguments")); }
+                        let x = self.tr_expr(args[k], Some(&RTy::Str))?;
+                        if x.ty != RTy::Str { return Err(self.err(e, "`format!` is only in the mapping table for string arguments")); }
+                        parts.push(x);
+                        k += 1; i += 2;
+                    } else if cs[i] == '{' || cs[i] == '}' {
+                        return Err(self.err(e, "`format!`: only plain `{}` placeholders are in the mapping table"));
+                    } else { lit.push(cs[i]); i += 1; }
+                }
+                flush(&mut lit, &mut parts);
+                if k != args.len() { return Err(self.err(e, "`format!`: more arguments than placeholders")); }
+                if parts.is_empty() { return Ok(Ex::atom("([] : List Char)", RTy::Str)); }
+                let mut r = Ex::pure(parts.iter().map(|x| x.a()).collect::<Vec<_>>().join(" ++ "), RTy::Str);
+                r.pure = parts.iter().all(|x| x.pure);
+                Ok(r)
+            }
             Expr::Macro(_) => Err(self.err(e, "macro invocation")),
             _ => Err(self.err(e, "unsupported expression")),
         }
@@ -275,6 +306,16 @@ impl<'w> FnTr<'w> {
                     let ty = RTy::Table(tn.to_string());
                     let pname = format!("{}_{}", name, tt.1);
                     let n = self.lparam(&pname, RTy::Opaque(ty.lean()), Origin::ParamMethod(usize::MAX, pname.clone()), (usize::MAX - 1, 1, self.lparams.len()))?;
+                    return Ok(Ex::atom(n, ty));
+                }
+            }
+            // an OPAQUE global VALUE (`WHITE_TABLES`; table entry with an empty method name): a parameter of its type (arrays = lists)
+            if let What::Fn { opaque, .. } = &self.target.what {
+                if let Some(o) = opaque.iter().find(|o| o.recv == name && o.method.is_empty()) {
+                    fn listify(t: RTy) -> RTy { match t { RTy::VecFn(el) | RTy::VecList(el) => RTy::VecList(Box::new(listify(*el))), t => t } }
+                    let ty: syn::Type = syn::parse_str(o.ret).map_err(|_| self.err(e, "bad opaque type in the table"))?;
+                    let ty = listify(self.resolve_type(&ty)?);
+                    let n = self.lparam(name, ty.clone(), Origin::ParamMethod(usize::MAX, name.clone()), (usize::MAX - 1, 1, self.lparams.len()))?;
                     return Ok(Ex::atom(n, ty));
                 }
             }
